@@ -620,6 +620,17 @@ example :
       [.arr 0 0 0, .arr 1 1 0, .res 0 0 1, .res 1 1 1, .res 0 0 2, .res 1 1 2]).fwd.reverse =
       [(0, 0, 2), (1, 1, 2)] ∧
     (dReqIds [.arr 0 0 0, .arr 1 1 0, .res 0 0 1, .res 1 1 1, .res 0 0 2, .res 1 1 2]).Nodup := by decide
+-- a burst sharing ONE timestamp, alternating between two instances, zero store latency, each request served
+-- to completion before the next (`drl_sequential_window_bound` covers it: the times are arbitrary): limit 2,
+-- the first two are forwarded, the others rejected — globally first, then locally once the instance knows
+example :
+    (DRL.serveAll (aligned 10) 2 (DRL.init 2)
+      [(0, 0, 5, 5, 5), (1, 1, 5, 5, 5), (0, 2, 5, 5, 5), (1, 3, 5, 5, 5), (0, 4, 5, 5, 5)]).fwd.reverse =
+      [(0, 0, 5), (1, 1, 5)] ∧
+    (DRL.serveAll (aligned 10) 2 (DRL.init 2)
+      [(0, 0, 5, 5, 5), (1, 1, 5, 5, 5), (0, 2, 5, 5, 5), (1, 3, 5, 5, 5), (0, 4, 5, 5, 5)]).dropped = [4, 3, 2] ∧
+    (DRL.serveAll (aligned 10) 2 (DRL.init 2)
+      [(0, 0, 5, 5, 5), (1, 1, 5, 5, 5), (0, 2, 5, 5, 5), (1, 3, 5, 5, 5), (0, 4, 5, 5, 5)]).count 0 = 2 := by decide
 -- the same two requests under the repaired window id: the second one is rejected
 example :
     (DRL.serveAll (aligned 100000000) 1 (DRL.init 1)
